@@ -703,6 +703,9 @@ func C06(run *report.Run) {
 		}
 		related := relatedPairs(run, cfg, states, acc)
 		run.Transitions += related
+		if cfg == cfgs[0] {
+			run.Transitions += c06CallHistories(run, cfg, states, acc)
+		}
 	}
 	acc.flush(run)
 	run.Transitions += acc.pairs
@@ -865,8 +868,58 @@ func runVersionPairs(run *report.Run, check string, cfgs []*world.Config, judge 
 	run.Distinct = acc.nontr
 }
 
+// c07CallHistories: the node diff of a pair must not depend on which diff calls the process made
+// before. One goroutine, nothing else running: for every ordered pair of a small universe, DiffLinks is
+// judged again (a) right after DiffIter of the same pair ("preview the entries, then ship the nodes"),
+// (b) right after DiffIter of another pair with the same new side, (c) right after DiffIter of another
+// pair with the same old side, (d) right after a DiffCursor of the same pair was abandoned half-way.
+func c07CallHistories(run *report.Run) {
+	cfg := world.UintCfg(2, urange(1, 5), 1, ref.FormatBinary, "none")
+	if run.Thorough() {
+		cfg = world.UintCfg(2, urange(0, 8), 1, ref.FormatBinary, "none")
+	}
+	vs, err := allVersions(cfg)
+	if err != nil {
+		run.HarnessError("%s: %v", cfg.Name, err)
+		return
+	}
+	acc := &pairAcc{}
+	noop := func(a, r bool, k, av, rv interface{}) (bool, error) { return true, nil }
+	var n int64
+	for i, o := range vs {
+		for j, nw := range vs {
+			other := vs[(i+j+1)%len(vs)]
+			for _, pre := range []struct {
+				name string
+				f    func()
+			}{
+				{"DiffIter of the same pair", func() { nw.t.DiffIter(ctx, o.t, noop) }},
+				{"DiffIter of another pair with the same new version", func() { nw.t.DiffIter(ctx, other.t, noop) }},
+				{"DiffIter of another pair with the same old version", func() { other.t.DiffIter(ctx, o.t, noop) }},
+				{"a diff cursor of the same pair abandoned after its first entry", func() {
+					if dc, err := nw.t.StartDiff(ctx, o.t); err == nil {
+						dc.NextEntry(ctx)
+					}
+				}},
+			} {
+				guardRes(func() error { pre.f(); return nil })
+				n++
+				fs := checkNodeDiff(cfg, o, nw)
+				for k := range fs {
+					fs[k].Sig += "|after-an-earlier-diff-call"
+				}
+				acc.add(cfg, "C07", fs, []string{fmt.Sprintf("old version %v", o.c), fmt.Sprintf("new version %v", nw.c), "DiffLinks called right after " + pre.name})
+			}
+		}
+	}
+	acc.flush(run)
+	run.Transitions += n
+	run.Parts = append(run.Parts, map[string]interface{}{"part": "call histories (serial): DiffLinks judged right after another diff call", "config": cfg.Name, "versions": len(vs), "observations": n})
+}
+
 func C07(run *report.Run) {
 	runVersionPairs(run, "C07", versionConfigs(run.Thorough()), checkNodeDiff)
+	c07CallHistories(run)
 	run.AddSample("every ordered pair of persisted versions of the universe, e.g. old={1=a,2=a,4=a} new={2=b,3=a}: DiffLinks events vs reach sets from the reference walker, then LoadMast(new) from a store holding reach(old)+added")
 	run.Rule = "versions = every assignment of {absent, value...} to the keys of the universe, each built and persisted by the real implementation; all ordered pairs; non-trivial = pairs with different roots; oracle = reach sets computed by the independent store walker + replica load"
 }
@@ -1022,3 +1075,45 @@ func runVersionPairsSerial(run *report.Run, check string, cfgs []*world.Config, 
 }
 
 func allVersionsSerial(cfg *world.Config) ([]*version, error) { return allVersions(cfg) }
+
+// c06CallHistories: the entry diff of a pair must not depend on which diff calls the process made
+// before. Serially (one goroutine, after the parallel part is over), for every ordered pair of the first
+// configuration's states: the pair is judged again right after DiffLinks of the same pair, after DiffIter /
+// DiffLinks of another pair sharing one side, and after a diff cursor of the same pair was abandoned.
+func c06CallHistories(run *report.Run, cfg *world.Config, states []*builtState, acc *pairAcc) int64 {
+	if len(states) > 200 {
+		states = states[:200]
+	}
+	noopE := func(a, r bool, k, av, rv interface{}) (bool, error) { return true, nil }
+	noopL := func(r bool, l interface{}) (bool, error) { return true, nil }
+	var n int64
+	for i, od := range states {
+		for j, nw := range states {
+			other := states[(i+j+1)%len(states)]
+			for _, pre := range []struct {
+				name string
+				f    func()
+			}{
+				{"DiffLinks of the same pair", func() { nw.t.DiffLinks(ctx, od.t, noopL) }},
+				{"DiffIter of another pair with the same new tree", func() { nw.t.DiffIter(ctx, other.t, noopE) }},
+				{"DiffLinks of another pair with the same old tree", func() { other.t.DiffLinks(ctx, od.t, noopL) }},
+				{"a diff cursor of the same pair abandoned after its first entry", func() {
+					if dc, err := nw.t.StartDiff(ctx, od.t); err == nil {
+						dc.NextEntry(ctx)
+					}
+				}},
+			} {
+				guardRes(func() error { pre.f(); return nil })
+				n++
+				cls := "old=" + sideClass(od.c, od.t, od.hist) + ",new=" + sideClass(nw.c, nw.t, nw.hist)
+				fs := checkEntryDiff(cfg, od.t, nw.t, od.c, nw.c, cls, false)
+				for k := range fs {
+					fs[k].Sig += "|after-an-earlier-diff-call"
+				}
+				acc.add(cfg, "C06", fs, append(pairHist(cfg, od.hist, nw.hist), "the entry diff was taken right after "+pre.name))
+			}
+		}
+	}
+	run.Parts = append(run.Parts, map[string]interface{}{"part": "call histories (serial): entry diff judged right after another diff call", "config": cfg.Name, "states": len(states), "observations": n})
+	return n
+}
